@@ -17,7 +17,7 @@ PROP = "C04"
 
 def run(tier):
     t0 = time.time()
-    ctx = CC.explore(tier, tag="c04", faults="c04", fault_every=1 if tier == "thorough" else 1)
+    ctx = CC.explore(tier, tag="c04", faults="c04", fault_every=1, nprof=1 if tier == "thorough" else None)   # faults come from profile 0; quick keeps its 2 profiles for the vacuity check
     binary = C.build_harness("vh")
     verdicts, totals = CC.replay_codec(binary, ctx, kinds=("fault",))
     v = C.Verdicts(PROP)
